@@ -21,6 +21,15 @@ let dispatch = function
   | ["recovery"; rows; cols; cl] ->
       (match smwpm_recovery (zi rows) (zi cols) (List.map cluster_of_string (split ';' cl)) with
        | Some r -> string_of_bits r | None -> "ERR Exception")
+  (* the operator of RotatedToricSMWPMDecoder._recovery_tparities(code, time_steps, clusters) as bsf *)
+  | ["trecovery"; rows; cols; cl] ->
+      (match smwpm_toric_recovery (zi rows) (zi cols) (List.map cluster_of_string (split ';' cl)) with
+       | Some r -> string_of_bits r | None -> "ERR Exception")
+  (* RotatedToricCode.new_pauli().path((ax, ay), (bx, by)).to_bsf() *)
+  | ["tpath"; rows; cols; ax; ay; bx; by] ->
+      (match smwpm_toric_path_operator (zi rows) (zi cols) (zi ax, zi ay) (zi bx, zi by) with
+       | Some o -> string_of_bits o | None -> "ERR IndexError")
+  | ["tstabs"; rows; cols] -> string_of_rows (rottoric_code (zi rows) (zi cols)).stabs
   | ["rstabs"; rows; cols] -> string_of_rows (rotplanar_code (zi rows) (zi cols)).stabs
   | ["rsyn"; rows; cols; e] -> string_of_bits (syndrome_of (rotplanar_code (zi rows) (zi cols)).stabs (bits_of_string e))
   | _ -> "ERR BadRequest"
